@@ -1,6 +1,6 @@
 """C07 - Reported machine state mirrors the emitted program (E1)."""
 
-from ._base import BuilderSystem, run_configs, replay_history, with_debug_logging
+from ._base import BuilderSystem, run_configs, replay_history, with_debug_logging, with_bystander
 from ..common import rf
 
 SPIN = {"clockwise": "M3", "counter": "M4"}
@@ -32,6 +32,8 @@ class WordHook:
 
 
 class C07System(BuilderSystem):
+    deep = True
+
     def __init__(self, grid, bounded=False, hooks=False):
         self.grid = grid
         self.cfg = {}
@@ -179,7 +181,7 @@ ASSUMPTIONS = ["not demanded: halt_mode, tool power after M05, the other API's s
 def systems(tier):
     grid = (0, 1, 50, 1200.5)
     return [("full-api", C07System(grid), 3 if tier == "quick" else 4, None),
-            ("bounded-with-rejections", C07System(grid, bounded=True), 3 if tier == "quick" else 4, None),
+            ("bounded-with-rejections-bystander", with_bystander(C07System(grid, bounded=True)), 3 if tier == "quick" else 4, None),
             ("with-move-hooks-debug-logging", with_debug_logging(C07System(grid, hooks=True)), 2 if tier == "quick" else 3, None)]
 
 
